@@ -10,6 +10,8 @@ const cp = require('child_process')
 
 const ROOT = process.env.VERIF_ROOT || path.resolve(__dirname, '..')
 const SIMRW = path.join(ROOT, 'simrw/target/release/simrw')
+// extra V8/node flags for child processes (determinism proofs use another --hash-seed)
+const NODE_ARGS = (process.env.VERIF_NODE_ARGS || '').split(' ').filter(Boolean)
 
 // ---------------------------------------------------------------------------------------------
 function fnv32 (str) {
@@ -150,7 +152,7 @@ function execFresh (engine, plan, timeoutMs, extraEnv) {
   fs.mkdirSync(tmpdir, { recursive: true })
   const file = path.join(tmpdir, `cand-${process.pid}-${fnv32(JSON.stringify(plan)).toString(16)}.json`)
   fs.writeFileSync(file, JSON.stringify({ property: engine.id, plan }))
-  const r = cp.spawnSync(process.execPath, [path.join(__dirname, 'main.js'), 'exec', file], {
+  const r = cp.spawnSync(process.execPath, NODE_ARGS.concat([path.join(__dirname, 'main.js'), 'exec', file]), {
     encoding: 'utf8', maxBuffer: 1 << 28, timeout: timeoutMs || 60000, env: Object.assign({}, process.env, extraEnv || {})
   })
   try { fs.unlinkSync(file) } catch (e) {}
@@ -188,7 +190,7 @@ function runChunks (engine, seed, tier, total, workers, onLine) {
       while (active < workers && next < chunks.length) {
         const [from, to] = chunks[next++]
         active++
-        const child = cp.spawn(process.execPath, [path.join(__dirname, 'main.js'), 'worker', engine.id, String(seed), String(from), String(to), tier], { stdio: ['ignore', 'pipe', 'pipe'] })
+        const child = cp.spawn(process.execPath, NODE_ARGS.concat([path.join(__dirname, 'main.js'), 'worker', engine.id, String(seed), String(from), String(to), tier]), { stdio: ['ignore', 'pipe', 'pipe'] })
         let buf = ''; let err = ''; let done = 0; let lastStart = null
         const timer = setTimeout(() => { errors.push(`chunk ${from}..${to} timed out at run ${lastStart}`); child.kill('SIGKILL') }, engine.chunkTimeoutMs || 600000)
         child.stdout.on('data', d => {
